@@ -43,6 +43,11 @@ M = {
  "c12-prefix-noslash": ("services/grpc.go", 'return project + "/topics/"', 'return project + "/topics"'),
  "c12-create-nolivecheck": ("actions/create-subscription.go", "\t} else if exists {\n\t\treturn ErrExists\n\t}\n\n\ttopic, err := findTopic", "\t} else if exists && false {\n\t\treturn ErrExists\n\t}\n\n\ttopic, err := findTopic"),
  "c12-case-insensitive": ("services/grpc-subscriber.go", "\t\t\tnameHasExactPrefix(subscription.FieldName, projectSubscriptionPrefix(req.Project)),\n", ""),
+ "c17-sign": ("internal/sqltypes/interval.go", "\t\ttimeSign = -1\n", "\t\ttimeSign = 1\n"),
+ "c17-trunc-seconds": ("services/grpc-subscriber.go", "MessageRetentionDuration: durationpb.New(time.Duration(subscription.MessageTTL)),", "MessageRetentionDuration: durationpb.New(time.Duration(subscription.MessageTTL).Truncate(time.Second)),"),
+ "c17-labels-writes-filter": ("services/grpc-subscriber.go", "\t\t\t\tsubUpdate.SetLabels(req.Subscription.Labels)\n", "\t\t\t\tsubUpdate.SetLabels(req.Subscription.Labels)\n\t\t\t\tif req.Subscription.Filter != \"\" {\n\t\t\t\t\tsubUpdate.SetMessageFilter(req.Subscription.Filter)\n\t\t\t\t}\n"),
+ "c17-month31": ("internal/sqltypes/interval.go", "month = 30 * day", "month = 31 * day"),
+ "c17-maxb-lost": ("actions/create-subscription.go", "\tif a.params.MaxBackoff > 0 {\n\t\tcreate = create.SetMaxBackoff(sqltypes.IntervalPtr(a.params.MaxBackoff))\n\t}\n", ""),
 }
 def main():
     name, checks = sys.argv[1], sys.argv[2].split(",")
